@@ -161,7 +161,7 @@ func runC10(c *core.Ctx) {
 		lengths = append(lengths, i)
 	}
 	lengths = append(lengths, 1000, 4095, 4096, 4097, 65537)
-	rsaKeys := []string{"sp1024", "sp2048"}
+	rsaKeys := []string{"sp1024", "sp2048", "sp2047", "sp2044", "sp1031"} // the last three have moduli that are not a whole number of bytes
 
 	for _, blk := range blocks {
 		for _, tr := range trans {
@@ -172,6 +172,9 @@ func runC10(c *core.Ctx) {
 			for _, kn := range keyNames {
 				for _, n := range lengths {
 					for pi, pat := range pats {
+						if (kn == "sp2047" || kn == "sp2044" || kn == "sp1031") && !(pi == 0 && (n == 0 || n == 1 || n == 16 || n == 33)) {
+							continue
+						}
 						if tr.mk != nil && !c.Thorough() && pi%4 != 0 && !(n <= 1 || n == 16) {
 							continue
 						}
@@ -189,6 +192,71 @@ func runC10(c *core.Ctx) {
 							c.Case(key, func(t *core.T) { c10Case(t, blk, tr, kn, n, pat, nn, key) })
 						}
 					}
+				}
+			}
+		}
+	}
+
+	// results of successive calls are independent values: a plaintext returned by one Decrypt is not altered by the next call,
+	// an element returned by one Encrypt is not altered by the next, and Encrypt leaves its input alone
+	c.Group("results-independent-across-calls")
+	seqLens := []int{0, 1, 15, 16, 17, 32, 100}
+	for _, blk := range blocks {
+		for _, l1 := range seqLens {
+			for _, l2 := range seqLens {
+				for _, l3 := range []int{-1, 16} {
+					blk, l1, l2, l3 := blk, l1, l2, l3
+					key := fmt.Sprintf("sequence/%s/len=%d,%d,%d", blk.name, l1, l2, l3)
+					c.Case(key, func(t *core.T) {
+						t.NonTrivial()
+						k := detKey(blk.lib.KeySize(), "seq"+blk.name)
+						var lens []int
+						for _, l := range []int{l1, l2, l3} {
+							if l >= 0 {
+								lens = append(lens, l)
+							}
+						}
+						var pts, gotPts, elDocs [][]byte
+						var els []*etree.Element
+						_, p := guard(func() error {
+							for i, l := range lens {
+								pt := bytes.Repeat([]byte{byte('A' + i)}, l)
+								in := append([]byte{}, pt...)
+								el, err := blk.lib.Encrypt(k, in, nil)
+								t.Impl(1)
+								if err != nil {
+									return err
+								}
+								if !bytes.Equal(in, pt) {
+									t.Fail("C10/sequence/"+blk.name+"/encrypt-alters-its-input", "%s: Encrypt changed the caller's plaintext buffer", key)
+								}
+								pts, els, elDocs = append(pts, pt), append(els, el), append(elDocs, samlgen.Doc(el.Copy()))
+							}
+							for _, el := range els {
+								got, err := blk.lib.Decrypt(k, el)
+								t.Impl(1)
+								if err != nil {
+									return err
+								}
+								gotPts = append(gotPts, got)
+							}
+							return nil
+						})
+						t.Compared()
+						if p != "" || len(gotPts) != len(lens) {
+							t.Outcome("error-in-sequence") // totality and single round trips are judged by the other groups
+							return
+						}
+						for i := range lens {
+							if !bytes.Equal(gotPts[i], pts[i]) {
+								t.Fail("C10/sequence/"+blk.name+"/earlier-plaintext-altered-by-later-call", "%s: the plaintext returned by call %d (%q...) reads %q... after the later calls", key, i+1, trunc(pts[i], 12), trunc(gotPts[i], 12))
+							}
+							if !bytes.Equal(samlgen.Doc(els[i].Copy()), elDocs[i]) {
+								t.Fail("C10/sequence/"+blk.name+"/earlier-element-altered-by-later-call", "%s: the element returned by Encrypt call %d changed after the later calls", key, i+1)
+							}
+						}
+						t.Outcome("independent")
+					})
 				}
 			}
 		}
